@@ -35,11 +35,14 @@ func profileFor(check, tier, variant string) *CheckDef {
 		d.Check = "C01"
 		d.DupProbe = true
 		d.MinOps, d.MaxOps = 4, 12
-	case "C04", "C04mem":
+	case "C04", "C04mem", "C04bulk":
 		// C04mem: the same on the in-memory directory (its segments live in
 		// buffers the directory owns; a held reader must survive their removal)
 		if check == "C04mem" {
 			d.Check, d.ForceMem = "C04", true
+		}
+		if check == "C04bulk" {
+			d.Check, d.Bulk = "C04", true
 		}
 		d.MinClients, d.MaxClients = 1, 3
 		d.MinOps, d.MaxOps = 6, 20
